@@ -16,6 +16,8 @@ def observe(spec, inputs):
     out = {"error": None}
     try:
         P = _poly(n, spec, inputs)
+        if spec.get("warm"):
+            C.nd_warm(P)
         if spec["part"] == "tighten":
             tb = P.tighten_column_bounds()
             out["tb"] = [[int(v) for v in tb[0]], [int(v) for v in tb[1]]]
